@@ -265,6 +265,10 @@ func GenScript(rt *rapid.T, p *Profile) *Script {
 		}
 		sc.Steps = append(sc.Steps, genStep(rt, p, &sc.Cfg, i))
 	}
+	if p.Teardown {
+		// every teardown history ends with the server closed and two quiet hours
+		sc.Steps = append(sc.Steps, Step{Op: "CloseServer", Life: -1}, Step{Op: "Sleep", N: 7200, Life: -1})
+	}
 
 	return sc
 }
